@@ -130,7 +130,7 @@ func c04(c *Ctx) {
 				}
 				g1 = true
 				r.Check(okOps && len(un) == 0, "R04.G", "enc:key-id", c.pos(i.Cond.Pos()), sprintf("first 8 bytes vs AuthKeyHash(authKey): operands ok=%v, %d exits reachable without the equal edge", okOps, len(un)))
-			case strings.Contains(xo+yo, "Sha1"):
+			case strings.Contains(xo+yo, "Sha1") || strings.Contains(xo+yo, "aes_ige.MessageKey"):
 				w := ""
 				for _, pair := range [][2]ssa.Value{{cd.X, cd.Y}, {cd.Y, cd.X}} {
 					if s := shaWindow(pair[0], tr, f); s != "" {
@@ -387,7 +387,7 @@ func c04Refusals(c *Ctx) {
 		n := 0
 		for _, b := range f.Blocks {
 			ret, ok := an.AsReturn(b.Instrs[len(b.Instrs)-1])
-			if !ok || len(ret.Results) != 2 || !an.IsNilConst(an.RetVal(ret, 0)) {
+			if !ok || len(ret.Results) != 2 || !an.MayBeNilConst(an.RetVal(ret, 0)) {
 				continue
 			}
 			n++
